@@ -190,7 +190,11 @@ func entVal(e *list.LinkedListEntity) interface{} {
 func (s *linkedRun) verifyAll(after string, full bool, blame string) bool {
 	t := s.t
 	if blame == "" {
-		if !s.verify(after, full) {
+		// the target: always both chains, ends, size and ToArray; the textual form when full
+		s.noText = !full
+		ok := s.verify(after, true)
+		s.noText = false
+		if !ok {
 			return false
 		}
 	}
